@@ -388,15 +388,24 @@ func (c20) Eval(c *Chooser, env *Env) *Outcome {
 	// fault plan over the expected invocations
 	var faulted []string
 	fatalExpected := false
+	unlisted := false
 	if withFaults && len(expect) > 0 {
 		n := 1 + c.Int("fault.n", 2)
 		for i := 0; i < n; i++ {
 			e := expect[c.Int("fault.inv", len(expect))]
 			kinds := []ToolFault{TFCannotStart, TFKilled, TFKilledOutput, TFNonzeroEmpty, TFEpipe}
 			if e.Tool == "shellcheck" {
-				kinds = append(kinds, TFGarbage, TFEmptyOK, TFJSONGarbage)
+				kinds = append(kinds, TFGarbage, TFEmptyOK, TFJSONGarbage, TFNullElement)
+			} else {
+				kinds = append(kinds, TFNoNewline)
 			}
 			k := kinds[c.Int("fault.kind", len(kinds))]
+			if k == TFNullElement || k == TFNoNewline {
+				// output shapes the property does not list (a JSON array holding null, a pyflakes line cut
+				// off before its newline): whether they are fatal is not specified; everything else - no
+				// deadlock, the process bound, collection before return - still is
+				unlisted = true
+			}
 			key := InvKey(e.Tool, e.Stdin)
 			tools.Faults[key] = k
 			if k == TFCannotStart {
@@ -504,6 +513,9 @@ func (c20) Eval(c *Chooser, env *Env) *Outcome {
 		if res.Fatal == "" {
 			o.V = &Violation{Oracle: "no-fatal", Class: "unloadable-config-not-fatal", Message: "the configuration of the last argument's repository cannot be loaded but the call returned a normal result"}
 		}
+		return o
+	}
+	if unlisted {
 		return o
 	}
 	if fatalExpected {
